@@ -25,3 +25,4 @@ open IrVerif.Scope
 #print axioms IrVerif.Scope.C17_idempotent_ir9
 #print axioms IrVerif.Scope.C17_idempotent_ext_model
 #print axioms IrVerif.Scope.C17_ext_sharding_resolved
+#print axioms IrVerif.Scope.C17_ext_sharding_resolved_model
